@@ -140,7 +140,10 @@ func init() {
 				a.runtime.context = a.Get(1)
 			}
 			result = a.runtime.executeList(root)
-
+			if result.Kind() == reflect.Interface && result.IsNil() {
+				// the last return gave nil (see returnedNil)
+				result = reflect.Value{}
+			}
 			return result
 		})),
 		"ints": reflect.ValueOf(Func(func(a Arguments) (result reflect.Value) {
